@@ -7,7 +7,7 @@ import sys
 import tempfile
 
 from sa.program import src, own_nodes, call_name, parent, kwarg, AnchorMissing, REPO
-from sa import guards, exprmodel
+from sa import guards, exprmodel, resolve
 import sa.program as program_mod
 
 EXPLANATION = (
@@ -399,7 +399,41 @@ def first_tree_difference(a, b):
     return None
 
 
+def r13_8(ctx):
+    """VForm.hash combines the hashes of its parts as an ORDERED SEQUENCE WITH MULTIPLICITY (tuple concatenation): the added
+    expressions are summed by the generated kernel, so `vf.add(t); vf.add(t)` is the form 2t and must not share a key with t.
+    A set / frozenset (or sorted-unique, or xor) of the component hashes forgets multiplicity."""
+    cls = ctx.prog.cls(VF + '.VForm')
+    h = cls.methods.get('hash')
+    if h is None:
+        raise AnchorMissing('R13.8: VForm.hash')
+    from sa import alpha as _alpha
+    nodes = [h.node]
+    for c in ast.walk(h.node):
+        if isinstance(c, ast.Call) and isinstance(c.func, ast.Attribute) and isinstance(c.func.value, ast.Name) and c.func.value.id == 'self' \
+                and c.func.attr in cls.methods and _alpha.is_new_function(cls.methods[c.func.attr].qual):
+            nodes.append(cls.methods[c.func.attr].node)
+    bad = []
+    for nd in nodes:
+        for c in ast.walk(nd):
+            if isinstance(c, ast.Call) and call_name(c) in ('frozenset', 'set', 'np.unique') and c.args \
+                    and any(k in src(c) for k in ('hash', 'exprs')):
+                bad.append(c)
+            if isinstance(c, (ast.SetComp,)) and any(k in src(c) for k in ('hash', 'exprs')):
+                bad.append(c)
+            if isinstance(c, ast.BinOp) and isinstance(c.op, ast.BitXor) and 'hash' in src(c):
+                bad.append(c)
+    if bad:
+        ctx.violated('R13.8', h.qual, src(bad[0])[:90], bad[0],
+                     'component hashes are collected in a set: multiplicity (and order) of the added terms is lost -- a form with u*v*dx added twice '
+                     '(the form 2 u v dx, whose kernel has two accumulation lines) gets the cache key of the mass form and is answered with '
+                     'MassAssembler2D (max |A - 2M| = 5e-2)')
+    else:
+        ctx.met('R13.8', h.qual, 'component hashes are combined as tuples', h.node, 'order and multiplicity enter the key')
+
+
 def run(ctx):
+    r13_8(ctx)
     import rules.C06 as c06
     c06.r06_1(ctx, rule='R13.1')
     c06.hash_combiners(ctx, 'R13.1')
